@@ -1,4 +1,8 @@
 import GceTcb.Proofs.EventLogCost
+import GceTcb.Model.EventLogSites
+import GceTcb.Gen.PanicSitesEvl
+import GceTcb.Gen.EvlConsts
+import GceTcb.Gen.AbiSizes
 /-
 C07 (event-log half, checked under id C07E) — relying-party decoders are total on untrusted bytes:
 TCG event-log and SP800-155 event parsing, and the locator decoding built on it.
@@ -8,6 +12,10 @@ readers (Model/EventLogCost.lean); `rt : Runtime` carries the two Go-runtime all
 (`append` growth, `io.ReadAll`) with their laws `rt.Lawful` as an explicit hypothesis (measured by the
 harness on the running toolchain).  The reader kind (bytes.Buffer / bytes.Reader / os.File) does not
 occur: the repaired readers issue no zero-length Read (C18_Log_reader_independent).
+
+The model is tied to the source by facts regenerated on every run (extract/xc07evl.go): `C07_evl_funcs`,
+`C07_evl_sites`, `C07_evl_consts`, `C07_evl_factories`, `C07_evl_widths`, `C07_evl_libcalls`, `C07_evl_tpmAlgoSize`,
+`C07_evl_guards`, `C07_evl_shape` at the end of this file.
 -/
 namespace GceTcb.C07Evl
 open GceTcb GceTcb.Codec GceTcb.Codecs GceTcb.EventLog GceTcb.EvlCost
@@ -155,5 +163,101 @@ example : (xReadLog Runtime.upper ([0, 0, 0, 0, 3, 0, 0, 0] ++ zeros 20 ++ [0, 0
 example : xVariableLocatorDecode (zeros 16 ++ [0x56, 0, 0, 0]) = .ok (zeros 16, [0x56, 0, 0, 0]) := by decide
 example : xVariableLocatorDecode (zeros 16 ++ [0x56, 0]) = .err "short" := by decide
 example : xEfiVarContents [7, 0, 0, 0, 1, 2] = .ok [1, 2] := by decide
+
+/-! ## regenerated facts: the model accounts for what the current source contains -/
+
+/-- The functions the model covers are exactly those reachable, in the static call graph of the source, from
+    the decoder entry points; the calls that leave for other packages of the repository are those the model
+    replaces by C18's / C16's codecs. -/
+theorem C07_evl_funcs :
+    modelledFuncs.map (·.1) = Gen.PanicSitesEvl.funcs ∧ modelledExternalCalls = Gen.PanicSitesEvl.externalCalls := by
+  decide +kernel
+
+/-- The model accounts for exactly the panic-capable expressions the current source contains: a new
+    index / slice / make / append-in-a-loop / Grow / type assertion / narrowing conversion / dereference /
+    dynamic call / division in any function in scope changes the regenerated inventory and breaks this
+    obligation before any input is found. -/
+theorem C07_evl_sites : modelledSites.map Site.key = Gen.PanicSitesEvl.sites := by decide +kernel
+
+/-- the checked operations of the model, by the names they carry (grep Model/EventLogCost.lean) -/
+theorem C07_evl_sites_checked :
+    checkedNames =
+      ["eventlog.TCGEventData.Unmarshal#1:slice", "eventlog.TCGEventData.Unmarshal#4:slice",
+       "eventlog.TaggedDigest.Unmarshal#1:make",
+       "eventlog.ByteSizedCStr.Unmarshal#1:index", "eventlog.ByteSizedCStr.Unmarshal#2:slice",
+       "eventlog.readExact#1:make", "eventlog.readExact#2:slice", "eventlog.readExact#5:make",
+       "exel.ucs2toUTF8#2:index", "exel.EfiVarFSReader.ReadVariable#1:slice",
+       "exel.variableLocatorDecode#1:slice", "exel.variableLocatorDecode#2:slice",
+       "exel.variableLocatorDecode#3:index", "exel.variableLocatorDecode#4:index"] := by decide +kernel
+
+/-- the one checked site that does fire — and only there: ucs2toUTF8 on the empty name -/
+theorem C07_evl_ucs2toUTF8_panic_site (name : Bytes) (p : String) (h : xUcs2toUTF8 name = .panic p) :
+    p ∈ checkedNames := by
+  rw [xUcs2toUTF8_panic_site name p h]; decide +kernel
+
+/-- The sizes the cost model charges are those of the current source: every `&T{…}` / `new(T)` / in-memory
+    reader constructor in scope with its gc/amd64 size, `maxPrealloc`, and the signature size (the literal 16 of
+    `xReadEventData`; `hexKeyAlloc` is the 2·16-byte buffer and the 2·16-byte string of hex.EncodeToString). -/
+theorem C07_evl_consts :
+    modelledAllocs = Gen.EvlConsts.allocs ∧
+    maxPrealloc = Gen.EvlConsts.maxPrealloc ∧
+    Gen.EvlConsts.eventSignatureSize = 16 ∧ hexKeyAlloc = 4 * Gen.EvlConsts.eventSignatureSize := by
+  decide +kernel
+
+/-- The event-factory registry is the one the model has: a single key, the Event3 signature, whose factory
+    allocates an SP800155Event3 (of the size the model charges); no function of the package writes to the
+    registry — its only use is the lookup in TCGEventData.Unmarshal. -/
+theorem C07_evl_factories :
+    modelledFactoryKeys = Gen.EvlConsts.eventFactoryKeyBytes ∧
+    modelledFactoryTypes = Gen.EvlConsts.eventFactoryTypes ∧
+    modelledFactoryUses = Gen.EvlConsts.eventFactoriesUses := by
+  decide +kernel
+
+/-- The width of every size prefix / count, the fixed fields of the two event structures — hence the 16 bytes
+    every accepted TCGPCREvent2 occupies at least (C07_evl_event_consumes) — and the EFI_GUID scratch. -/
+theorem C07_evl_widths :
+    modelledPrefixWidths = Gen.EvlConsts.sizePrefixWidths ∧
+    modelledFixedFields = Gen.EvlConsts.fixedFields ∧
+    minEvent2Size Gen.EvlConsts.fixedFields Gen.EvlConsts.sizePrefixWidths = 16 ∧
+    modelledLocalArrays = Gen.EvlConsts.localArrays := by
+  decide +kernel
+
+/-- Every call that leaves the three packages (standard library, x/text, securejoin, go-sev-guest's getter) is
+    one the cost model knows — charged, on an error path, free, metered only, or a parameter — and so is every
+    []byte <-> string conversion. -/
+theorem C07_evl_libcalls :
+    modelledLibCalls.map (fun c => (c.1, c.2.1, c.2.2.1)) = Gen.EvlConsts.libCalls ∧
+    modelledStringConvs = Gen.EvlConsts.stringConvs := by
+  decide +kernel
+
+/-- the digest-size table of the model is the regenerated map, entry for entry and nothing else -/
+theorem C07_evl_tpmAlgoSize (alg : Nat) : tpmAlgoSize alg = Gen.AbiSizes.tpmAlgoSize.lookup alg := by
+  simp only [tpmAlgoSize, Gen.AbiSizes.tpmAlgoSize, List.lookup]
+  by_cases h4 : alg = 4
+  · subst h4; rfl
+  · by_cases h11 : alg = 11
+    · subst h11; rfl
+    · by_cases h12 : alg = 12
+      · subst h12; rfl
+      · have e4 : (alg == 4) = false := by simpa using h4
+        have e11 : (alg == 11) = false := by simpa using h11
+        have e12 : (alg == 12) = false := by simpa using h12
+        simp [h4, h11, h12, e4, e11, e12]
+
+/-- the control skeleton of the functions in scope — every condition other than a bare `err != nil`, every
+    loop, range operand, switch tag and case, in source order — is the one the model's branches were written from -/
+theorem C07_evl_guards : modelledGuards = Gen.EvlConsts.guards := by decide +kernel
+
+/-- the body of readExact, line by line: first buffer min(size, maxPrealloc), one io.ReadFull per iteration into
+    buf[read:], io.EOF after at least one byte becomes io.ErrUnexpectedEOF, doubling capped at the declared size -/
+theorem C07_evl_shape : readExactShape = Gen.EvlConsts.readExactShape := by decide +kernel
+
+/-- non-vacuity: the checked operations are live — each returns its panic exactly when Go would -/
+example : (xIndex [] 0 "eventlog.ByteSizedCStr.Unmarshal#1:index" []).res = .panic "eventlog.ByteSizedCStr.Unmarshal#1:index" := by decide
+example : (xSlice [1, 2] 3 2 "eventlog.readExact#2:slice" []).res = .panic "eventlog.readExact#2:slice" := by decide
+example : (xMake (2 ^ 63) "eventlog.readExact#1:make" []).res = .panic "eventlog.readExact#1:make" := by decide
+example : xUcs2toUTF8 [] = .panic "exel.ucs2toUTF8#2:index" := by
+  unfold xUcs2toUTF8 Extract.ucs2toUTF8 Extract.decodeUtf16; rfl
+example : modelledSites.length = 53 ∧ checkedNames.length = 14 := by decide +kernel
 
 end GceTcb.C07Evl
